@@ -1472,6 +1472,7 @@ class Walker:
                 g = node.generators[0]
                 items = list(vals[0].value)
                 outs = [([], s2)]
+                raised = []
                 ok = True
                 for it in items:
                     nxt = []
@@ -1482,30 +1483,36 @@ class Walker:
                         for cond in g.ifs:
                             k2 = []
                             for flag, c in keep:
+                                if not flag:
+                                    k2.append((flag, c))
+                                    continue
                                 for kind, v, c2 in self.eval(cond, c):
                                     if kind != "val":
-                                        ok = False
+                                        raised.append((kind, v, c2))
                                         continue
                                     t = truth(v)
                                     if t is None:
                                         ok = False
-                                    k2.append((flag and bool(t), c2))
+                                    k2.append((bool(t), c2))
                             keep = k2
                         for flag, c in keep:
                             if not flag:
                                 nxt.append((acc, c))
                                 continue
                             for kind, v, c2 in self.eval(node.elt, c):
-                                if kind != "val" or v.kind != "const":
+                                if kind != "val":
+                                    raised.append((kind, v, c2))
+                                    continue
+                                if v.kind != "const":
                                     ok = False
                                     continue
                                 nxt.append((acc + [v.value], c2))
                     outs = nxt
-                    if not ok or len(outs) > 16:
+                    if not ok or len(outs) > 64:
                         ok = False
                         break
-                if ok and outs:
-                    res = []
+                if ok and (outs or raised):
+                    res = list(raised)
                     for acc, c in outs:
                         try:
                             val = Const(set(acc)) if isinstance(node, ast.SetComp) else Const(list(acc))
@@ -1605,6 +1612,29 @@ class Walker:
                 except (IndexError, ValueError) as exc:
                     s.add(Event("raise", node, type(exc).__name__, self.frame, "implicit"))
                     return [("raise", type(exc).__name__, s)]
+            if self.exact_loops and isinstance(node.func, ast.Attribute) and node.func.attr in _LIST_MUTATORS and not kws \
+                    and all(a.kind == "const" for a in args):
+                holder_ = self._lookup(node.func.value, s)
+                if holder_ is not None and holder_.kind == "const" and isinstance(holder_.value, list):
+                    import copy as _copy
+
+                    new_ = _copy.copy(holder_.value)
+                    try:
+                        r_ = getattr(new_, node.func.attr)(*[a.value for a in args])
+                    except (ValueError, IndexError) as exc:
+                        s.add(Event("raise", node, type(exc).__name__, self.frame, "implicit"))
+                        return [("raise", type(exc).__name__, s)]
+                    except Exception:
+                        r_ = NOCONST
+                    if r_ is not NOCONST:
+                        ev_ = Event("call", node, target, self.frame, {"args": args, "kws": kws})
+                        ev_.defs = dict(s.defs) if s.defs else None
+                        s.add(ev_)
+                        if isinstance(node.func.value, ast.Name):
+                            s.env[node.func.value.id] = Const(new_)
+                        else:
+                            s.facts[norm(node.func.value)] = Const(new_)
+                        return [("val", Const(r_), s)]
             self.cur_recv = recv[0] if npre == 1 and isinstance(node.func, ast.Attribute) else (
                 s.env.get("self") if isinstance(node.func, ast.Attribute) and dotted(node.func.value) == "self" else None)
             tgt = target
@@ -1736,6 +1766,34 @@ class Walker:
             # the evaluated arguments of the call being summarised are available to the hook as walker.cur_args / cur_kws
             self.cur_args, self.cur_kws = args, kws
             val = self.call_value(node, target, s)
+        # -- a generator of the repository used as a value (list(gen()), x.extend(gen()), "".join(gen())): in evaluator mode
+        #    it is run to the end and stands for the list of what it yields
+        if val is None and self.exact_loops and target.kind == "repo" and len(target.funcs) == 1 and target.funcs[0] is not None \
+                and not target.by_name and _is_generator(target.funcs[0]) and target.funcs[0] not in s.stack and s.depth <= self.max_depth:
+            acc = "__genacc%d" % id(node)
+            item = "__genitem%d" % id(node)
+            loop = getattr(node, "_pgv_matloop", None)
+            if loop is None:
+                loop = ast.For(target=ast.Name(id=item, ctx=ast.Store()), iter=node,
+                               body=[ast.Expr(value=ast.Call(func=ast.Attribute(value=ast.Name(id=acc, ctx=ast.Load()), attr="append", ctx=ast.Load()),
+                                                             args=[ast.Name(id=item, ctx=ast.Load())], keywords=[]))], orelse=[])
+                ast.copy_location(loop, node)
+                ast.fix_missing_locations(loop)
+                try:
+                    node._pgv_matloop = loop
+                except Exception:
+                    pass
+            s.events = s.events[:-1]  # the loop records the call itself
+            s.env[acc] = Const([])
+            res_ = []
+            for k_, v_, s2_ in self._for_generator(loop, s, target):
+                got = s2_.env.pop(acc, None)
+                s2_.env.pop(item, None)
+                if k_ == "next":
+                    res_.append(("val", got if got is not None and got.kind == "const" else UNK, s2_))
+                else:
+                    res_.append((k_, v_, s2_))
+            return out + res_
         # -- inlining
         if val is None and target.kind in ("repo", "ctor") and len(target.funcs) == 1 and (not target.by_name or self.inline_by_name):
             callee = target.funcs[0]
@@ -1839,6 +1897,7 @@ class Walker:
         for k, v, si in outs:
             back = State(env=dict(s.env), facts=None, events=si.events, exc=s.exc, depth=s.depth, stack=s.stack,
                          defs=dict(s.defs))
+            back.outer = s.outer
             if is_self:
                 back.facts = si.facts
             else:
@@ -1934,6 +1993,9 @@ def _namedtuple_type(cls):
     except Exception:
         pass
     return nt
+
+
+_LIST_MUTATORS = {"append", "extend", "insert", "remove", "pop", "sort", "reverse", "clear"}
 
 
 def _scratch(facts) -> dict:
